@@ -286,6 +286,8 @@ class FuncSpec:
     def all_clauses(self):
         for c in self.requires + self.ensures:
             yield c
+        for _, c in self.asserts_at:
+            yield c
         for l in self.loops.values():
             for c in l.invariants:
                 yield c
@@ -395,7 +397,7 @@ def logical_lines(path, go_file):
 KEYWORDS = ('func', 'iface', 'assume', 'spec', 'lemma', 'axiom', 'const', 'arith', 'ghost', 'requires', 'ensures',
             'modifies', 'nonnil', 'loop', 'invariant', 'decreases', 'param', 'inline', 'assert-call', 'trusted',
             'args', 'results', 'report', 'using', 'flag', 'pure', 'import', 'assert-at', 'owns', 'fork',
-            'deterministic', 'guarded', 'send', 'closes', 'call')
+            'deterministic', 'guarded', 'send', 'closes', 'call', 'alias')
 
 
 def join_continuations(raw):
@@ -560,6 +562,8 @@ def parse_file(path, specs, pkgpath=None, go_file=True, allow_assume=False):
                 cur = ps
                 cur_loop = None
                 sub_indent = indent
+            elif kw == 'alias':
+                cur.alias = rest.strip()
             elif kw == 'args':
                 cur.args = [x.strip() for x in rest.split(',') if x.strip()]
             elif kw == 'results':
@@ -573,9 +577,12 @@ def parse_file(path, specs, pkgpath=None, go_file=True, allow_assume=False):
                 lab, e = split_label(e)
                 cur_top.assert_calls.append((callee.strip(), Clause('assert-call', e, lab, ln, where)))
             elif kw == 'assert-at':
-                anchor, _, e = rest.partition(':')
-                lab, e = split_label(e)
-                cur_top.asserts_at.append((anchor.strip(), Clause('assert', e, lab, ln, where)))
+                # assert-at "source text of the anchored line": [@label] expr
+                ma = re.match(r'^"((?:[^"\\]|\\.)*)"\s*:\s*(.*)$', rest, re.S)
+                if not ma:
+                    raise ParseError('assert-at needs a quoted anchor: ' + text)
+                lab, e = split_label(ma.group(2))
+                cur_top.asserts_at.append((ma.group(1).replace('\\"', '"'), Clause('assert', e, lab, ln, where)))
             elif kw == 'report':
                 lab, e = split_label(rest)
                 cur_top.reports.append(Clause('report', e, lab, ln, where))
